@@ -263,3 +263,88 @@ func VfCrashUploadPart() {
 	zzvf.Assert(q.AbortMultipartUpload(vfCtx(), &s3.AbortMultipartUploadInput{Bucket: vfStr("bkt"), Key: &key, UploadId: &up.UploadId}) == nil || err == nil, "upload-can-be-aborted-after-crash")
 	zzvf.Assert(q.DeleteBucket(vfCtx(), "bkt") == nil || err == nil, "bucket-deletion-works-after-crash")
 }
+
+// VfCrashVersionedDeleteByID: C11 – in a bucket with versioning enabled the key holds two versions (V1 "O", then V2: an
+// object or a delete marker); DeleteObject with the id of the newest one (which re-exposes V1) or of the older one is
+// killed before an arbitrary file-system step. After a restart the key is in its complete previous state (V2 current,
+// V1 by id) or its complete new state (the addressed version gone, the other one current and retrievable by id), and
+// V1's bytes are never lost unless V1 was the one deleted.
+func VfCrashVersionedDeleteByID() {
+	vfWorld()
+	zzvfos.M.OTmpfile = zzvf.Choice("otmpfile_supported", 2) == 1
+	cfg := vfConfig{versioning: true}
+	p := vfNewPosix(cfg)
+	vfMustBucket(p, "bkt")
+	zzvf.Assert(p.PutBucketVersioning(vfCtx(), "bkt", types.BucketVersioningStatusEnabled) == nil, "setup-enable-versioning")
+	key := "k"
+	one := int64(1)
+	oldBody, newBody := []byte("O"), []byte("N")
+	out, err := p.PutObject(vfCtx(), s3response.PutObjectInput{Bucket: vfStr("bkt"), Key: &key, Body: bytes.NewReader(oldBody), ContentLength: &one})
+	zzvf.Assert(err == nil, "setup-first-version")
+	v1 := out.VersionID
+	newestIsMarker := zzvf.Choice("newest_is_delete_marker", 2) == 1
+	var v2 string
+	if newestIsMarker {
+		d, err := p.DeleteObject(vfCtx(), &s3.DeleteObjectInput{Bucket: vfStr("bkt"), Key: &key})
+		zzvf.Assert(err == nil && d.VersionId != nil, "setup-delete-marker")
+		if err != nil || d.VersionId == nil {
+			return
+		}
+		v2 = *d.VersionId
+	} else {
+		out, err = p.PutObject(vfCtx(), s3response.PutObjectInput{Bucket: vfStr("bkt"), Key: &key, Body: bytes.NewReader(newBody), ContentLength: &one})
+		zzvf.Assert(err == nil, "setup-second-version")
+		v2 = out.VersionID
+	}
+	deleteNewest := zzvf.Choice("delete_the_newest", 2) == 1
+	target := v1
+	if deleteNewest {
+		target = v2
+	}
+	var opErr error
+	crashed := vfCrashRun(80, func() {
+		_, opErr = p.DeleteObject(vfCtx(), &s3.DeleteObjectInput{Bucket: vfStr("bkt"), Key: &key, VersionId: &target})
+	})
+	if crashed {
+		zzvf.Reach("crashed")
+	} else {
+		zzvf.Reach("completed-without-crash")
+		zzvf.Assert(opErr == nil, "operation-succeeds")
+	}
+	q := vfNewPosix(cfg)
+	present, data, etag, coherent := vfKeyState(q, key)
+	zzvf.Assert(coherent, "length-matches-data-after-crash")
+	isV1 := zzvf.And(present, zzvf.BytesEq(data, oldBody), etag == vfQuotedMD5(oldBody))
+	isV2 := zzvf.And(present, zzvf.BytesEq(data, newBody), etag == vfQuotedMD5(newBody))
+	if newestIsMarker {
+		isV2 = !present
+	}
+	byID := func(id string, want []byte) bool {
+		g, gerr := q.GetObject(vfCtx(), &s3.GetObjectInput{Bucket: vfStr("bkt"), Key: &key, VersionId: &id, Range: vfStr("")})
+		if gerr != nil {
+			return false
+		}
+		b, _ := io.ReadAll(g.Body)
+		return zzvf.BytesEq(b, want) && g.ETag != nil && *g.ETag == vfQuotedMD5(want)
+	}
+	if deleteNewest {
+		// previous state: V2 current; new state: V1 current again
+		zzvf.Assert(zzvf.Or(isV1, isV2), "key-reads-as-the-previous-or-the-re-exposed-version-after-crash")
+		zzvf.Assert(byID(v1, oldBody), "older-version-retrievable-by-id-after-crash")
+		if !crashed {
+			zzvf.Assert(isV1, "acknowledged-delete-by-id-re-exposes-the-previous-version")
+		}
+	} else {
+		// the older version is deleted: the key keeps reading as V2 at every point
+		zzvf.Assert(isV2, "deleting-an-older-version-never-changes-what-the-key-reads-as")
+		if !newestIsMarker {
+			zzvf.Assert(byID(v2, newBody), "newest-version-retrievable-by-id-after-crash")
+		}
+		if !crashed {
+			zzvf.Assert(!byID(v1, oldBody), "acknowledged-delete-by-id-removes-the-version")
+		}
+	}
+	// nothing left over blocks the key: a new write and a delete work
+	_, err = q.PutObject(vfCtx(), s3response.PutObjectInput{Bucket: vfStr("bkt"), Key: &key, Body: bytes.NewReader([]byte("Z")), ContentLength: &one})
+	zzvf.Assert(err == nil, "key-writable-after-crash")
+}
